@@ -58,3 +58,33 @@ def run(pid):
             for c in glob.glob(os.path.join(F.BUILD, "facts", "*-" + __import__("hashlib").sha1(d.encode()).hexdigest()[:8])):
                 shutil.rmtree(c, ignore_errors=True)
     return rows, bad
+
+
+def run_equivalents(pid):
+    """the other direction: selftest/equivalents/<pid>-eq-*.patch are behaviour-preserving rewrites (together they build and pass the baseline programs and the replays).  The property's
+    rules must report nothing new on them and must not break: a report is a false alarm of the checker."""
+    pats = sorted(glob.glob(os.path.join(F.VERIF, "selftest", "equivalents", pid + "-*.patch")))
+    rows = []
+    bad = False
+    if not pats:
+        return rows, False
+    base, _ = findings_on(pid, F.REPO)
+    for p in pats:
+        d = scratch_copy()
+        try:
+            r = subprocess.run(["patch", "-p1", "-s", "-d", d, "-i", p], stdout=subprocess.PIPE, stderr=subprocess.STDOUT)
+            if r.returncode != 0:
+                rows.append({"patch": os.path.basename(p), "silent": False, "error": "patch does not apply: " + r.stdout.decode()[-300:]})
+                bad = True
+                continue
+            keys, broken = findings_on(pid, d)
+            new = sorted(keys - base)
+            silent = not new and not broken
+            rows.append({"patch": os.path.basename(p), "silent": silent, "false_alarms": new[:5], "analysis_broken": broken})
+            if not silent:
+                bad = True
+        finally:
+            shutil.rmtree(d, ignore_errors=True)
+            for c in glob.glob(os.path.join(F.BUILD, "facts", "*-" + __import__("hashlib").sha1(d.encode()).hexdigest()[:8])):
+                shutil.rmtree(c, ignore_errors=True)
+    return rows, bad
